@@ -303,89 +303,7 @@ func checkC05(cx *Ctx, r *Report) {
 	}
 
 	// --- verifier discipline ---------------------------------------------------
-	verifierKeys := []string{"provider.verifyRedirectSignature$1", "provider.verifyPostSignature$1", "serviceprovider.(*ServiceProvider).ValidateRedirectSignature",
-		"serviceprovider.(*ServiceProvider).ValidatePostSignature", "signature.ValidateRedirect", "signature.ValidatePost", "signature.verifyRSA", "signature.verifyDSA"}
-	vset := map[*ssa.Function]bool{}
-	for _, vk := range verifierKeys {
-		if f := w.Func(vk); f != nil {
-			vset[f] = true
-		}
-	}
-	// A module helper that is not one of the anchors counts as a verifying call when it obeys the verifier
-	// discipline itself (verifyECDSA next to verifyRSA / verifyDSA); it is then reported as its own obligation.
-	type helperVerdict struct{ status, pos, msg string }
-	discovered := map[*ssa.Function]*helperVerdict{}
-	var isCrypto func(c ssa.CallInstruction) bool
-	isCrypto = func(c ssa.CallInstruction) bool {
-		switch calleeName(c) {
-		case "crypto/rsa.VerifyPKCS1v15", "crypto/dsa.Verify", "(*github.com/russellhaering/goxmldsig.ValidationContext).Validate", "crypto/rsa.VerifyPSS", "crypto/ecdsa.Verify", "crypto/ecdsa.VerifyASN1", "crypto/ed25519.Verify":
-			return true
-		}
-		isVerifierFn := func(f *ssa.Function) bool {
-			if vset[f] {
-				return true
-			}
-			if f.Blocks == nil || f.Pkg == nil || !isModulePath(f.Pkg.Pkg.Path()) || isMockPath(f.Pkg.Pkg.Path()) {
-				return false
-			}
-			if hv, ok := discovered[f]; ok {
-				return hv.status == "ok"
-			}
-			discovered[f] = &helperVerdict{status: "busy"}
-			st, pos, msg := cx.verifierEval(f, isCrypto)
-			discovered[f] = &helperVerdict{st, pos, msg}
-			return st == "ok"
-		}
-		if f := calleeOf(c); f != nil {
-			return isVerifierFn(f)
-		}
-		// a verifier kept as a function value (a table of algorithms): every function the value can denote
-		// must be a verifier
-		if c.Common().IsInvoke() {
-			return false
-		}
-		if _, isB := c.Common().Value.(*ssa.Builtin); isB {
-			return false
-		}
-		tg, ok := fx.funcTargets(c.Common().Value)
-		if !ok || len(tg) == 0 {
-			return false
-		}
-		for _, f := range tg {
-			if !isVerifierFn(f) {
-				return false
-			}
-		}
-		return true
-	}
-	for _, vk := range verifierKeys {
-		fn := w.Func(vk)
-		if fn == nil {
-			// verifyRSA was introduced by a repair; its absence is fine if ValidateRedirect calls the primitive directly
-			if vk == "signature.verifyRSA" {
-				continue
-			}
-			r.Fail("R-VERIFIER", vk, "", "anchor function not found")
-			continue
-		}
-		cx.checkVerifier(r, fn, isCrypto)
-	}
-	{
-		var hs []*ssa.Function
-		for f := range discovered {
-			hs = append(hs, f)
-		}
-		sort.Slice(hs, func(i, j int) bool { return w.FuncKey(hs[i]) < w.FuncKey(hs[j]) })
-		for _, f := range hs {
-			switch hv := discovered[f]; hv.status {
-			case "ok":
-				r.Ok("R-VERIFIER", w.FuncKey(f), w.FnPos(f), "helper of a verifier: "+hv.msg)
-			case "fail", "undecided":
-				// a helper that calls a verification primitive but may return nil without its verdict
-				r.Fail("R-VERIFIER", w.FuncKey(f), hv.pos, hv.msg)
-			}
-		}
-	}
+	cx.checkVerifierDiscipline(r)
 	cx.checkVerifierArguments(r)
 	r.Min("R-VERIFIER", 4)
 	// ValidatePost validates the element it was given (the document root), not an element found by searching for a signature
@@ -979,5 +897,96 @@ func (cx *Ctx) checkVerificationKeysFromGivenMetadata(r *Report) {
 	}
 	if n == 0 {
 		r.Fail("R-VFG", "certs:#functions", "", "no function returning []*x509.Certificate found: the source of the verification keys cannot be established")
+	}
+}
+
+// checkVerifierDiscipline (R-VERIFIER, shared with C11): every function on the way from the handler's verification
+// step to the cryptographic primitive returns nil only as / under the verdict of a verifying call. "Unsigned or
+// wrongly signed requests are refused" - what C05 states and what C11's "advertised as true exactly when unsigned
+// requests are refused" relies on - is exactly that.
+func (cx *Ctx) checkVerifierDiscipline(r *Report) {
+	w, fx := cx.W, cx.Fx
+	verifierKeys := []string{"provider.verifyRedirectSignature$1", "provider.verifyPostSignature$1", "serviceprovider.(*ServiceProvider).ValidateRedirectSignature",
+		"serviceprovider.(*ServiceProvider).ValidatePostSignature", "signature.ValidateRedirect", "signature.ValidatePost", "signature.verifyRSA", "signature.verifyDSA"}
+	vset := map[*ssa.Function]bool{}
+	for _, vk := range verifierKeys {
+		if f := w.Func(vk); f != nil {
+			vset[f] = true
+		}
+	}
+	// A module helper that is not one of the anchors counts as a verifying call when it obeys the verifier
+	// discipline itself (verifyECDSA next to verifyRSA / verifyDSA); it is then reported as its own obligation.
+	type helperVerdict struct{ status, pos, msg string }
+	discovered := map[*ssa.Function]*helperVerdict{}
+	var isCrypto func(c ssa.CallInstruction) bool
+	isCrypto = func(c ssa.CallInstruction) bool {
+		switch calleeName(c) {
+		case "crypto/rsa.VerifyPKCS1v15", "crypto/dsa.Verify", "(*github.com/russellhaering/goxmldsig.ValidationContext).Validate", "crypto/rsa.VerifyPSS", "crypto/ecdsa.Verify", "crypto/ecdsa.VerifyASN1", "crypto/ed25519.Verify":
+			return true
+		}
+		isVerifierFn := func(f *ssa.Function) bool {
+			if vset[f] {
+				return true
+			}
+			if f.Blocks == nil || f.Pkg == nil || !isModulePath(f.Pkg.Pkg.Path()) || isMockPath(f.Pkg.Pkg.Path()) {
+				return false
+			}
+			if hv, ok := discovered[f]; ok {
+				return hv.status == "ok"
+			}
+			discovered[f] = &helperVerdict{status: "busy"}
+			st, pos, msg := cx.verifierEval(f, isCrypto)
+			discovered[f] = &helperVerdict{st, pos, msg}
+			return st == "ok"
+		}
+		if f := calleeOf(c); f != nil {
+			return isVerifierFn(f)
+		}
+		// a verifier kept as a function value (a table of algorithms): every function the value can denote
+		// must be a verifier
+		if c.Common().IsInvoke() {
+			return false
+		}
+		if _, isB := c.Common().Value.(*ssa.Builtin); isB {
+			return false
+		}
+		tg, ok := fx.funcTargets(c.Common().Value)
+		if !ok || len(tg) == 0 {
+			return false
+		}
+		for _, f := range tg {
+			if !isVerifierFn(f) {
+				return false
+			}
+		}
+		return true
+	}
+	for _, vk := range verifierKeys {
+		fn := w.Func(vk)
+		if fn == nil {
+			// verifyRSA was introduced by a repair; its absence is fine if ValidateRedirect calls the primitive directly
+			if vk == "signature.verifyRSA" {
+				continue
+			}
+			r.Fail("R-VERIFIER", vk, "", "anchor function not found")
+			continue
+		}
+		cx.checkVerifier(r, fn, isCrypto)
+	}
+	{
+		var hs []*ssa.Function
+		for f := range discovered {
+			hs = append(hs, f)
+		}
+		sort.Slice(hs, func(i, j int) bool { return w.FuncKey(hs[i]) < w.FuncKey(hs[j]) })
+		for _, f := range hs {
+			switch hv := discovered[f]; hv.status {
+			case "ok":
+				r.Ok("R-VERIFIER", w.FuncKey(f), w.FnPos(f), "helper of a verifier: "+hv.msg)
+			case "fail", "undecided":
+				// a helper that calls a verification primitive but may return nil without its verdict
+				r.Fail("R-VERIFIER", w.FuncKey(f), hv.pos, hv.msg)
+			}
+		}
 	}
 }
